@@ -9,7 +9,7 @@ from ..cases import Interp, Lin, Obj, Oracle, RankOracle, Sym, Undecided, weak_o
 from ..cfg import CFG, EXIT
 from ..core import Ctx
 from ..model import AnalysisError, FuncInfo, canon, dotted, kwarg, norm, walk_no_nested
-from .common import assigned_value, else_part, enclosing, expand_locals, pargs, prog, resolve_local
+from .common import assigned_value, conditions_at, else_part, enclosing, expand_locals, pargs, prog, resolve_local
 
 TERMS = {"S": Lin.atom("S"), "E": Lin.atom("E"),
          "L": Lin.atom("pivot") - Lin.atom("dist"), "H": Lin.atom("pivot") + Lin.atom("dist")}
@@ -346,6 +346,41 @@ def rule_sample(ctx: Ctx):
                   "each attempt starts with the whole continuum [bound_inf, bound_sup] available",
                   bad_detail="available segments are not reset to the whole continuum at the start of each attempt", key="avail-init")
     fb = [n for n in pv if n not in drawn]
+    if avail and drawn:
+        def nonempty(t: ast.AST):
+            # True: the test holds iff segments remain; False: iff none remain; None: unrelated
+            if isinstance(t, ast.UnaryOp) and isinstance(t.op, ast.Not):
+                r = nonempty(t.operand)
+                return None if r is None else not r
+            if norm(t) == avail:
+                return True
+            if isinstance(t, ast.Compare) and len(t.ops) == 1:
+                l, r, op = norm(t.left), norm(t.comparators[0]), type(t.ops[0])
+                if l == f"len({avail})" and r == "0":
+                    return {ast.NotEq: True, ast.Gt: True, ast.Eq: False, ast.LtE: False}.get(op)
+                if l == f"len({avail})" and r == "1":
+                    return {ast.GtE: True, ast.Lt: False}.get(op)
+                if l == "0" and r == f"len({avail})":
+                    return {ast.NotEq: True, ast.Lt: True, ast.Eq: False, ast.GtE: False}.get(op)
+                if l == avail and r == "[]":
+                    return {ast.NotEq: True, ast.Eq: False}.get(op)
+            return None
+
+        def room(st):
+            ks = [(nonempty(t) == pol) for t, pol in conditions_at(f.node, st) if nonempty(t) is not None]
+            return None if not ks else all(ks)
+        r_draw = room(drawn[0])
+        if r_draw is not None or fb:
+            ctx.check(r_draw is not False, "R-C16-3", f, drawn[0], "the separated draw happens while available segments remain",
+                      bad_detail="the pivot is drawn from the available segments exactly when none remain (an empty list is handed to _random_from_segments) - "
+                                 "and while room remains the unconstrained fallback is used: pivots are not kept apart", key="draw-guard")
+        for n in fb:
+            rf = room(n)
+            if rf is None:
+                ctx.undecided("R-C16-3", f, n, "the fallback pivot is not guarded by a recognised test on the available segments (not a verdict)", key="fallback-guard")
+            else:
+                ctx.check(rf is False, "R-C16-3", f, n, "the unconstrained fallback pivot is used only when no available segment remains",
+                          bad_detail="the unconstrained fallback pivot is used while available (separated) segments remain: pivots are not kept apart", key="fallback-guard")
     for n in fb:
         ctx.check(norm(n.value) in (f"np.random.uniform({b_inf}, {b_sup})",), "R-C16-3", f, n,
                   "fallback pivot (no room left) is drawn within the bounds", key="fallback")
